@@ -51,17 +51,37 @@ func (m *C06) OnBlock(e *Env, blk *world.BlockRecord) {
 	sort.Slice(vals, func(i, j int) bool { return vals[i].Oper < vals[j].Oper })
 	quorum := math.LegacyMustNewDecFromStr(params.PriceQuorum)
 	powerQuorum := math.LegacyNewDecFromInt(totalBonded).Mul(quorum).TruncateInt().BigInt()
-	// validators deactivated during this end block may or may not have been counted
-	var maybe []string
+	// validators deactivated during this end block: the oracle end blocker (expired requests) runs BEFORE the feeds end blocker,
+	// so a validator it deactivates is not counted; the feeds end blocker fixes its validator list before it looks for missed
+	// prices, so a validator it deactivates itself is still counted for every feed of this block. Which of the two happened
+	// follows from the history (the rule of MissReport, as in C15): an expired request that asked the validator, lacks its report
+	// and was made while it was already active.
+	var maybe []string // kept for the report text only
+	oracleDeact := map[string]bool{}
 	seenD := map[string]bool{}
 	for _, d := range fs.JDeact {
-		if fs.A0[d.Val] && !seenD[d.Val] {
-			seenD[d.Val] = true
-			maybe = append(maybe, d.Val)
+		if !fs.A0[d.Val] || seenD[d.Val] {
+			continue
 		}
-	}
-	if len(maybe) > 6 {
-		maybe = maybe[:6]
+		seenD[d.Val] = true
+		since := fs.SincePre[d.Val]
+		for _, a := range fs.JActivate {
+			if a.Val == d.Val && a.Tx.OK() {
+				since = a.Now
+			}
+		}
+		for _, r := range fs.Expired {
+			for _, c := range r.Chosen {
+				if c == d.Val && !r.Reported[d.Val] && since.Before(r.Time) {
+					oracleDeact[d.Val] = true
+				}
+			}
+		}
+		if oracleDeact[d.Val] {
+			e.St.Probe("c06_validator_deactivated_by_oracle_expiry_in_this_block")
+		} else {
+			e.St.Probe("c06_validator_deactivated_by_feeds_in_this_block")
+		}
 	}
 	cf := fs.CurFeeds
 	stored := map[string]feedstypes.Price{}
@@ -98,7 +118,7 @@ func (m *C06) OnBlock(e *Env, blk *world.BlockRecord) {
 			var entries []ref.PriceEntry
 			tsSet := map[int64]bool{}
 			for _, v := range vals {
-				if !fs.A0[v.Oper] || excl[v.Oper] {
+				if !fs.A0[v.Oper] || excl[v.Oper] || oracleDeact[v.Oper] {
 					continue
 				}
 				p, has := fs.Prices[v.Oper][feed.SignalID]
